@@ -184,7 +184,7 @@ func TestC17Registry(t *testing.T) {
 				for _, wc := range wrong {
 					if at, ok := registeredAt[string(wc.Claim)]; ok && at > thresholdsChangedAt {
 						// ... but this node has registered again since: its claim was computed from the current descriptor
-						sig, msg = "wrong-stake-claim", wc.Msg+" (the node registered again after the last change of the runtime's thresholds)"
+						sig, msg = "wrong-stake-claim", wc.Msg+fmt.Sprintf(" (the node registered again - position %d - after the last change of the runtime's thresholds - position %d)", at, thresholdsChangedAt)
 						break
 					}
 				}
